@@ -234,10 +234,18 @@ fn survives(t: &Tree, p: &str, c: u8) -> bool {
     t.get(p) == Some(&c) || t.iter().any(|(q, &qc)| qc == c && q.starts_with(&format!("{p}.conflict-")))
 }
 
-/// Was (p, c) sitting at the conflict-copy name that this run computes for a divergent path
-/// (with a different content than that loser)? Known-finding class D7.
+/// Known-finding class D7 — the conflict-copy name N that this run computes for a divergent path q is
+/// itself a path in use (present on a side or recorded), so the unconditional copy to N collides with N's
+/// own content or N's own pending plan action. Two shapes of loss belong to it:
+///  (i)  the lost version is the OCCUPANT of N (other content than the loser);
+///  (ii) the lost version is the LOSER of q itself, because N's own planned action (delete / propagate,
+///       decided from the scan taken before the copy) then removes or overwrites the fresh conflict-copy.
 fn collision(st: &State, trusted: bool, p: &str, c: u8) -> bool {
-    divergent(st, trusted).iter().any(|(q, _, l)| conflict_name(q, *l) == p && *l != c)
+    divergent(st, trusted).iter().any(|(q, _, l)| {
+        let n = conflict_name(q, *l);
+        let n_in_use = st.a.contains_key(&n) || st.b.contains_key(&n) || st.r.as_ref().is_some_and(|r| r.contains_key(&n));
+        (n == p && *l != c) || (n_in_use && q == p && *l == c)
+    })
 }
 
 /// C02 oracle on one transition.
@@ -340,7 +348,20 @@ fn apply_plan(st: &State, lines: &[(String, String)]) -> Result<(Tree, Tree), St
             "Conflict(BothChanged)" => {
                 let (ca, cb) = (*st.a.get(p).ok_or("BothChanged: A lacks")?, *st.b.get(p).ok_or("BothChanged: B lacks")?);
                 let (w, l) = (ca.max(cb), ca.min(cb));
-                let cn = conflict_name(p, l);
+                // the conflict-copy never lands on a name that is in use (other content there, or the name's
+                // own action in this plan deletes / conflicts): numbered variants "-2", "-3", … are used instead
+                let base = conflict_name(p, l);
+                let in_use = |n: &String| {
+                    let other = [&st.a, &st.b].iter().any(|m| m.get(n).is_some_and(|c| *c != l));
+                    let harmful = lines.iter().any(|(act, q)| q == n && !matches!(act.as_str(), "PropagateAtoB" | "PropagateBtoA" | "ConvergeIdentical"));
+                    other || harmful
+                };
+                let mut cn = base.clone();
+                let mut k = 1;
+                while in_use(&cn) {
+                    k += 1;
+                    cn = format!("{base}-{k}");
+                }
                 a.insert(cn.clone(), l);
                 b.insert(cn, l);
                 a.insert(p.clone(), w);
@@ -466,9 +487,15 @@ fn worker_job(w: &Worker, job: &Job) -> JobOut {
             }
         }
         "C06" => {
+            // a divergent path whose conflict-copy name is already in use before the run (known-finding class D7)
+            let d7 = divergent(st, st.r.is_some()).iter().any(|(q, _, l)| {
+                let n = conflict_name(q, *l);
+                st.a.contains_key(&n) || st.b.contains_key(&n) || st.r.as_ref().is_some_and(|r| r.contains_key(&n))
+            });
+            let cause = if d7 { "conflict_name_collision" } else { "other" };
             // (a) convergence
             if pa != pb {
-                out.violations.push(("not_converged".into(), format!("after a completed run A={pa:?} but B={pb:?}"), json!({})));
+                out.violations.push(("not_converged".into(), format!("after a completed run A={pa:?} but B={pb:?} (cause class: {cause})"), json!({"cause": cause})));
             }
             // (b) archive == exactly the common tree
             match &arch {
@@ -481,7 +508,7 @@ fn worker_job(w: &Worker, job: &Job) -> JobOut {
                     if *t != pa {
                         let extra: Vec<&String> = t.keys().filter(|k| !pa.contains_key(*k)).collect();
                         let class = if !extra.is_empty() && t.iter().all(|(k, c)| pa.get(k).map_or(true, |x| x == c)) && pa.keys().all(|k| t.contains_key(k)) { "extra_entries_only" } else { "other" };
-                        out.violations.push(("archive_not_exact".into(), format!("recorded common state {t:?} != tree {pa:?}"), json!({"class": class})));
+                        out.violations.push(("archive_not_exact".into(), format!("recorded common state {t:?} != tree {pa:?} (cause class: {cause})"), json!({"class": class, "cause": cause})));
                     }
                 }
             }
@@ -1070,7 +1097,8 @@ pub fn run(ctx: &Ctx, mode: &str) -> ! {
         ("C07", false) => vec![Bound { u0: vec!["f"], e: 2, m: 2, state_cap: 400_000 }],
         ("C07", true) => vec![Bound { u0: vec!["f"], e: 3, m: 2, state_cap: 400_000 }, Bound { u0: vec!["f", "d/g"], e: 2, m: 1, state_cap: 400_000 }],
         (_, false) => vec![Bound { u0: vec!["f"], e: 3, m: 2, state_cap: 400_000 }, Bound { u0: vec!["f", "d/g"], e: 2, m: 1, state_cap: 400_000 }],
-        (_, true) => vec![Bound { u0: vec!["f"], e: 4, m: 2, state_cap: 1_500_000 }, Bound { u0: vec!["f", "d/g"], e: 3, m: 2, state_cap: 1_500_000 }],
+        ("C06", true) => vec![Bound { u0: vec!["f"], e: 4, m: 2, state_cap: 1_500_000 }, Bound { u0: vec!["f"], e: 3, m: 3, state_cap: 1_500_000 }, Bound { u0: vec!["f", "d/g"], e: 3, m: 2, state_cap: 1_500_000 }],
+        (_, true) => vec![Bound { u0: vec!["f"], e: 5, m: 2, state_cap: 2_500_000 }, Bound { u0: vec!["f"], e: 3, m: 3, state_cap: 2_500_000 }, Bound { u0: vec!["f", "d/g"], e: 3, m: 2, state_cap: 2_500_000 }],
     };
     let (rep, v) = explore(ctx, mode, &bounds, 1);
     finish(ctx, rep, v);
